@@ -7,6 +7,7 @@ use serde_json::{json, Value};
 use std::io::{BufRead, Write};
 use std::panic::{catch_unwind, AssertUnwindSafe};
 
+mod astops;
 mod canon;
 mod hooks;
 mod pos;
@@ -21,6 +22,7 @@ fn dispatch(req: &Value) -> Value {
         "range_ops" => pos::range_ops(req),
         "slice" => pos::slice(req),
         "parse" => syn::parse(req),
+        "args_conv" => astops::args_conv(req),
         "lex" => syn::lex(req),
         "locate_tree" => syn::locate_tree(req),
         "locate_calls" => syn::locate_calls(req),
